@@ -99,7 +99,20 @@ def mon_no_fault(case, obs, prefix):
 
 def mon_c04(case, obs, prefix):
     bad = []
+    deleted = set()    # ghost: SEIDs whose Deletion Request was accepted and which no establishment has been given since
     for i, ev, o, prev, prev_dp, dup in walk(case, obs, prefix):
+        if ev["t"] == "recv" and not dup and not o.get("fault") and not o.get("panicked") and ev["msg"]["k"] in ("mod", "del", "est"):
+            sd = o["sends"] or []
+            if ev["msg"]["k"] in ("mod", "del") and ev["msg"]["seid"] in deleted:
+                if not any(x["type"] in ("modrsp", "delrsp") and x["cause"] == 65 and x["seid"] == 0 for x in sd):
+                    bad.append((i, "SEID %d was released (its Deletion Request was accepted) and has not been issued again, yet a request "
+                                   "addressed to it is not answered 'session context not found'" % ev["msg"]["seid"]))
+            if ev["msg"]["k"] == "del" and any(x["type"] == "delrsp" and x["cause"] == 1 for x in sd):
+                deleted.add(ev["msg"]["seid"])
+            if ev["msg"]["k"] == "est":
+                for x in sd:
+                    if x["type"] == "estrsp" and x["cause"] == 1:
+                        deleted.discard(x["fseid"])
         if o.get("fault"):
             bad.append((i, "fault: " + o["fault"]))
             break
